@@ -67,7 +67,7 @@ def _in_assert(cr, n):
 
 def _canon_params(cr, bodies, is_find):
     """methods of the impl whose id-like parameter is passed to the find function before any keyed use: path -> set(param index)"""
-    out = {}
+    out, rawkey = {}, {}
     for path, b in bodies.items():
         for i, p in enumerate(b['params']):
             if p.get('k') != 'bind' or not _id_like(cr.ty(p)) or p.get('n') == 'self':
@@ -93,7 +93,9 @@ def _canon_params(cr, bodies, is_find):
                         raw_key = True
             if canon and not raw_key:
                 out.setdefault(path, set()).add(i)
-    return out
+            elif raw_key and not canon:
+                rawkey.setdefault(path, set()).add(i)
+    return out, rawkey
 
 
 def check_U1(ctx, rep, impl_prefix, raw_field, find_names, find_impl=None):
@@ -109,7 +111,7 @@ def check_U1(ctx, rep, impl_prefix, raw_field, find_names, find_impl=None):
             return False
         return find_impl is None or nm.startswith(find_impl) or nm.startswith(impl_prefix)
 
-    canon_methods = _canon_params(cr, bodies, is_find)
+    canon_methods, rawkey_methods = _canon_params(cr, bodies, is_find)
     n_reads = 0
     for path, b in sorted(bodies.items()):
         self_id = _self_id(b)
@@ -254,12 +256,17 @@ def check_U1(ctx, rep, impl_prefix, raw_field, find_names, find_impl=None):
                         bad = 'index'
                     if a.get('k') == 'mcall' and a['m'] in KEYED and a['a'] and a['a'][0] is ch and _self_field(a['r'], self_id) != raw_field:
                         bad = a['m']
+                    if a.get('k') in ('call', 'mcall') and cname(callee(a) or {}) in rawkey_methods:
+                        off = 1 if a.get('k') == 'mcall' else 0
+                        for j, arg in enumerate(a['a']):
+                            if arg is ch and (j + off) in rawkey_methods[cname(callee(a))]:
+                                bad = 'key inside ' + cname(callee(a)).split('::')[-1]
                 if bad is None and value_position(n, parents):
                     bad = 'returned'
                 if bad:
                     rep.viol('U1', path, 'unresolved-id-use:%s:%s' % (n['n'], bad),
                              'the id `%s` comes straight from `%s` (no find in between) and is used as %s: it may name a class that has been '
-                             'merged into another one' % (n['n'], raw_field, 'the result' if bad == 'returned' else 'a key (' + bad + ')'),
+                             'merged into another one' % (n['n'], raw_field, 'the result' if bad == 'returned' else 'a key (' + bad.replace('key inside ', 'by ') + ')'),
                              loc=cr.loc(n))
     return n_reads
 
@@ -299,7 +306,8 @@ def check_U2(ctx, rep, impl_prefix, fwd, rev, pairs):
         ff, fg = _fields_read(cr, bodies, pf), _fields_read(cr, bodies, pg)
         n += 1
         rep.functions.add(pf); rep.functions.add(pg)
-        ok = {mirror.get(x, x) for x in ff} == fg
+        ff, fg = ff & {fwd, rev}, fg & {fwd, rev}        # only the two direction tables are compared
+        ok = {mirror.get(x, x) for x in ff} == fg and bool(ff)
         rep.inst('U2', '%s reads %s / %s reads %s: mirror images = %s' % (f, sorted(ff), g, sorted(fg), ok))
         if not ok:
             # name the side that does not touch its own table
@@ -321,12 +329,19 @@ def check_U3(ctx, rep, impl_prefixes):
         self_id = _self_id(b)
         if self_id is None:
             continue
+        inits = _let_inits(b)
 
         def sets_index(e):
             """binding id of S in a place `self.sets[S]` (through &mut / derefs)"""
             e = strip(e)
-            while e.get('k') == 'addr' or (e.get('k') == 'unary' and e.get('op') == 'deref'):
-                e = strip(e['e'])
+            hops = 0
+            while True:
+                while e.get('k') == 'addr' or (e.get('k') == 'unary' and e.get('op') == 'deref'):
+                    e = strip(e['e'])
+                if e.get('k') == 'path' and e.get('res') == 'local' and e.get('id') in inits and hops < 4:
+                    e = strip(inits[e['id']]); hops += 1        # `let dest = &mut self.sets[from];`
+                    continue
+                break
             if e.get('k') == 'index' and _self_field(e['e'], self_id) == 'sets':
                 r = chain_root(e['i'])
                 return r['id'] if r is not None else -1
@@ -406,6 +421,11 @@ def check_U4(ctx, rep):
                 while o.get('k') == 'addr' or (o.get('k') == 'unary' and o.get('op') == 'deref'):
                     o = strip(o['e'])
                 src = None
+                hops = 0
+                while o.get('k') == 'path' and o.get('res') == 'local' and o.get('id') in inits and hops < 4:
+                    o = _unwrap_unsafe(inits[o['id']]); hops += 1       # `let xr = x_result.elem;`
+                    while o.get('k') == 'addr' or (o.get('k') == 'unary' and o.get('op') == 'deref'):
+                        o = strip(o['e'])
                 if o.get('k') == 'field' and o['n'] == 'elem':
                     r = chain_root(o)
                     init = _unwrap_unsafe(inits.get(r['id'])) if r is not None and r['id'] in inits else None
@@ -470,6 +490,8 @@ def check_U5(ctx, rep):
                     for i, a in enumerate(parents):
                         if a.get('k') == 'if' and a.get('th') is chain[i + 1] or (a.get('k') == 'if' and _contains(a['th'], lambda y: y is x)):
                             c_ = strip(a['c'])
+                            if c_.get('k') == 'path' and c_.get('res') == 'local' and c_.get('id') in inits:
+                                c_ = strip(inits[c_['id']])         # `let is_root = id == parent_id; if is_root { .. }`
                             if c_.get('k') == 'binary' and c_.get('op') == '==':
                                 l, r = chain_root(c_['l']), chain_root(c_['r'])
                                 if l is None or r is None:
